@@ -332,6 +332,7 @@ PROPS = {
         verus=[U("c14_normalise", ["C14.V.normalise.weight_over_total", "C14.V.normalise.uninitialized"]), U("split_by", ["V.SplitsByMut.next.partition"]),
                U("lib_plumbing", ["C14.V.from_named.pairs_tables", "C14.V.from_named_eq.pairs_tables"]),
                U("c14_hash_skeleton", ["C14.V.hash_import.is_its_phases (no shortcut around validation / normalisation / the all-singles check)"]),
+               U("c14_hash_tables", ["C14.V.hash_import.infoset_table (every infoset's actions get the next block of dense indices in the infoset's own action order)", "C14.V.hash_import.num_actions"]),
                U("c14_hash_dispatch", ["C14.V.hash_import.entry_dispatch (an imported entry is validated against ITS infoset's table: multi-action table first, then the single-action table; the other table is untouched)", "C14.V.hash_import.rejects_unknown_infoset", "C14.V.scan_import.entry_dispatch (the scanning importer dispatches the same way, with the row's own offset)", "C14.V.scan_import.rejects_unknown_infoset"]),
                U("c14_slow_skeleton", ["C14.V.scan_import.offsets_are_prefix_sums", "C14.V.scan_import.is_its_phases"]),
                U("c11_init_recurse", ["C11.V.init_recurse.single_action_recorded_once (the table of single-action infosets both importers check coverage against lists each such infoset once)"]),
